@@ -109,6 +109,10 @@ RACE_SCENARIOS = [
      _call('tC', [['see'], ['body_read']], method='POST', form='g=tCg' + 'c' * 33, chunked_ok=True, pad='zz')],
     # two requests through the same rule with a rex wildcard (one cached filter object per process)
     [_call('tA', [['see']], route='rex'), _call('tC', [['see']], route='rex', pad='zz')],
+    # debug pages of two requests answered from the same pre-built 400 with different causes (HTML pages)
+    dict(cfg=['debug', 'max30'],
+         calls=[_call('tA', [['body_read']], method='POST', form='{"tA": bad', json_bad=True),
+                _call('tC', [['see'], ['body_read']], method='POST', form='{"tCtCtC": [1, 2, bad', json_bad=True, pad='zz')]),
 ]
 
 
@@ -187,6 +191,7 @@ def corpus():
         dict(kind='batch', race=0, preempt=1),
         dict(kind='batch', race=1, preempt=1),
         dict(kind='batch', race=2, preempt=1),
+        dict(kind='batch', race=3, preempt=1),
         # every kind of filtered wildcard, and the rule without wildcards whose url_args a route hook / handler extends
         _arr([_call('tA', [['see']], route='rex'), _call('tC', [['see']], route='re'), _call('tE', [['see']], route='path')],
              0, [[500, 1], [500, 2]]),
@@ -196,6 +201,7 @@ def corpus():
              0, [[600, 1], [600, 2]]),
         _arr(RACE_SCENARIOS[0], 0, [[700, 1]]),
         _arr(RACE_SCENARIOS[1], 1, [[300, 0]]),
+        _arr(RACE_SCENARIOS[3]['calls'], 0, [[800, 1]], cfg=RACE_SCENARIOS[3]['cfg']),
         _arr([_call('tA', [['see'], ['boom']]), _call('tC', [['see'], ['copy'], ['see']]),
               _call('tE', [['hdr', 'X-C', 'tEh'], ['status', 418], ['see']])], 0, [[300, 1], [300, 2], [300, 0]]),
     ]
@@ -296,7 +302,8 @@ def _gen_arr(rng):
     n = rng.choice([2, 2, 2, 3])
     calls = []
     bodyerr = rng.random() < 0.3      # requests whose body cannot be read: the pre-built 400 / 413 of errors_map
-    cfg = sorted(set((['max30'] if bodyerr else []) + [c for c in ('debug', 'nocatch', 'domain') if rng.random() < 0.12]))
+    cfg = sorted(set((['max30'] if bodyerr else []) + [c for c in ('debug', 'nocatch', 'domain') if rng.random() < 0.12]
+                     + (['debug'] if bodyerr and rng.random() < 0.5 else [])))
     for i in range(n):
         tok = 't%s' % 'ACE'[i]
         kw = dict(pad='z' * rng.choice([0, 0, 3, 11]))
@@ -395,8 +402,10 @@ def _solo_ops(case):
 
 
 def _run_batch(case):
-    calls = RACE_SCENARIOS[case['race']] if 'race' in case else SCENARIOS[case['scenario']]
-    return sched.run_batch(case, _arr(calls))
+    sc = RACE_SCENARIOS[case['race']] if 'race' in case else SCENARIOS[case['scenario']]
+    if isinstance(sc, dict):
+        return sched.run_batch(case, _arr(sc['calls'], cfg=sc['cfg']))
+    return sched.run_batch(case, _arr(sc))
 
 
 def run_impl(case):
